@@ -5,6 +5,7 @@
 //! usage: seqmon --focus C01 --seed S --cases N [--case I] [--threads T] [--out report.json]
 
 use std::collections::BTreeSet;
+use std::ops::Bound;
 use std::path::Path;
 use std::sync::Mutex;
 use std::sync::atomic::{AtomicU64, Ordering};
@@ -302,7 +303,7 @@ fn note_features<K: TestKey>(f: &mut Features, op: &Op<K>, mr: &ModelRunner<K>, 
 /// Model-based run: every oracle after every step.
 fn run_model<K: TestKey>(p: &Params, case: u64, rep: &mut Report) {
     let mut rng = Rng::derive(p.seed, case);
-    let n_ops = *rng.pick(SEG_SIZES);
+    let mut n_ops = *rng.pick(SEG_SIZES);
     let sync = !rng.chance(1, 4);
     let gcfg = gen_cfg(&p.focus, &mut rng, p.tier_thorough);
     let mut g: Gen<K> = Gen::new(&mut rng, gcfg);
@@ -332,6 +333,32 @@ fn run_model<K: TestKey>(p: &Params, case: u64, rep: &mut Report) {
         g.extra = vec![all[n / 2].clone(), all[n - 1].clone()];
         steps = wide_prefix.len() + 14;
         rep.count("histories_with_hundreds_of_keys", 1);
+    }
+    // the "huge record" regime (variable-length key types): 300-byte keys by the hundred and one
+    // 70 kB key, so that single log records exceed 64 KiB (a multi-key removal, a put and a removal
+    // of the long key), each followed by a reopen while the record is still only in the log
+    let huge = matches!(case % 53, 26 | 27) && (K::NAME == "String" || K::NAME == "Vec<u8>");
+    if huge {
+        n_ops = 1000;
+        let n = rng.range(260, 340) as usize;
+        let all: Vec<K> = (0..n).map(|i| K::bulk(i, 300)).collect();
+        let long = K::bulk(999_999, 70_000 + rng.usize(3000));
+        let c = cassadilia_verif::ops::Content::new(5, 9);
+        let d = cassadilia_verif::ops::Content::new(6, 10);
+        for (i, k) in all.iter().enumerate() {
+            wide_prefix.push(Op::Put { key: k.clone(), content: if i % 3 == 0 { d } else { c }, chunks: vec![] });
+        }
+        let reopen = Op::Reopen { flip_sync: false, pre_create: false };
+        wide_prefix.push(Op::Put { key: long.clone(), content: d, chunks: vec![] });
+        wide_prefix.push(reopen.clone());
+        wide_prefix.push(Op::RemoveRange { lo: Bound::Included(all[5].clone()), hi: Bound::Excluded(all[n - 5].clone()) });
+        wide_prefix.push(reopen.clone());
+        wide_prefix.push(Op::Remove { key: long.clone() });
+        wide_prefix.push(reopen);
+        g.keys = (0..8).map(|j| all[(j * n / 8 + j) % n].clone()).collect();
+        g.extra = vec![all[n / 2].clone(), long];
+        steps = wide_prefix.len() + 6;
+        rep.count("histories_with_log_records_over_64KiB", 1);
     }
     let root = fsx::fresh_path("seq");
     let cfg = config(n_ops, sync, false, true, true);
@@ -583,7 +610,15 @@ fn run_twin<K: TestKey>(p: &Params, case: u64, rep: &mut Report) {
     let mut gcfg = gen_cfg("C13", &mut rng, p.tier_thorough);
     gcfg.allow_reopen = true;
     let mut g: Gen<K> = Gen::new(&mut rng, gcfg);
-    let steps = rng.range(12, 40) as usize;
+    let mut steps = rng.range(12, 40) as usize;
+    // the "many abandoned transactions" regime: hundreds of them on one handle (more than any
+    // table of open transactions, descriptors or slots could hold if one leaked per abort)
+    let many_aborts = case % 59 == 58;
+    let abort_prefix = if many_aborts { rng.range(270, 340) as usize } else { 0 };
+    if many_aborts {
+        steps += abort_prefix;
+        rep.count("histories_with_hundreds_of_abandoned_transactions", 1);
+    }
     let root_a = fsx::fresh_path("twinA");
     let root_b = fsx::fresh_path("twinB");
     let cfg = config(n_ops, sync, false, true, true);
@@ -606,7 +641,7 @@ fn run_twin<K: TestKey>(p: &Params, case: u64, rep: &mut Report) {
     let mut aborts = 0u64;
     for step in 0..steps {
         // bias toward aborts
-        let op = if rng.chance(1, 4) {
+        let op = if step < abort_prefix || rng.chance(1, 4) {
             let key = rng.pick(&g.keys).clone();
             // content: current value of the key, a live blob, or a pool content
             let content = if let Some(v) = mr.model.map.get(&key)
